@@ -106,12 +106,14 @@ func (db *DB) mpoolDrain() {
 			}
 		case <-db.closeC:
 			ticker.Stop()
-			// Make sure the pool is drained.
+			// Make sure the pool is drained. The channel is left open: mpoolPut
+			// checks isClosed before it sends, but a memdb released while Close
+			// is in progress may pass that check and then send - on a closed
+			// channel that is a panic, on this one-slot channel it is harmless.
 			select {
 			case <-db.memPool:
 			case <-time.After(time.Second):
 			}
-			close(db.memPool)
 			return
 		}
 	}
